@@ -3,17 +3,19 @@
  - add-only hook files from /verif/hooks/<pkgpath>/ (tag verif) are mapped into /repo/<pkgpath>/
  - every non-test .go file of the repo that imports "sync" is copied with exactly that import
    rewritten to the vsync shim (the rest of the file is the current content, so edits are preserved)
-Usage: mkoverlay.py <repo> <outdir> [mutant.json]
+Usage: mkoverlay.py [--mutant-only] <repo> <outdir> [mutant.json]
 A mutant file {"file": rel, "find": regex, "replace": text} is applied on top (selftest only).
 """
 import json, os, re, sys
-repo, out = sys.argv[1], sys.argv[2]
-mut = json.load(open(sys.argv[3])) if len(sys.argv) > 3 else None
-hooks = '/verif/hooks'
+args = [a for a in sys.argv[1:] if not a.startswith('--')]
+mutant_only = '--mutant-only' in sys.argv
+repo, out = args[0], args[1]
+mut = json.load(open(args[2])) if len(args) > 2 and args[2] else None
+hooks = os.path.join(os.path.dirname(os.path.abspath(__file__)), 'hooks')
 os.makedirs(out + '/ov', exist_ok=True)
 replace = {}
 # hook files. hooks/<dir>/NAME.go -> /repo/<dir>/NAME.go ; dir may be nested (a__b => a/b)
-for d in sorted(os.listdir(hooks)):
+for d in ([] if mutant_only else sorted(os.listdir(hooks))):
     src = os.path.join(hooks, d)
     if not os.path.isdir(src): continue
     rel = d.replace('__', '/')
@@ -29,6 +31,7 @@ for root, dirs, files in os.walk(repo):
         p = os.path.join(root, f)
         try: s = open(p).read()
         except Exception: continue
+        if mutant_only: continue
         if re.search(r'^\s*"sync"\s*$', s, re.M) or re.search(r'^import\s+"sync"\s*$', s, re.M):
             s2 = re.sub(r'^(\s*)"sync"\s*$', r'\1sync "github.com/cloudwego/dynamicgo/vsync"', s, flags=re.M)
             s2 = re.sub(r'^import\s+"sync"\s*$', 'import sync "github.com/cloudwego/dynamicgo/vsync"', s2, flags=re.M)
